@@ -916,19 +916,26 @@ class SymDomain(BaseDomain):
             out[idx] = self.sym_minmax(name, [P(v) for v in moved[idx]])
         return out
 
-    def np_argmax(self, a, axis=None):
+    def _arg_extreme(self, name, a, axis):
         a = wrap(a)
         if a.size == 0:
-            raise ModelError("attempt to get argmax of an empty sequence")
+            raise ModelError(f"attempt to get {name} of an empty sequence")
+        flat = a.reshape(-1)
+        if all((is_number(v) and not isinstance(v, Poly)) or (isinstance(v, Poly) and v.is_const()) for v in flat):
+            vals = np.asarray([float(P(v).const_value()) for v in flat]).reshape(a.shape)      # concrete data: numpy itself
+            r = getattr(np, name)(vals, axis=axis)
+            return int(r) if axis is None else SymArr(np.asarray(r).astype(object), "real")
+        if axis is not None and a.ndim > 1:
+            raise Unsupported(f"data dependent {name} along an axis")
         if self.choice is None:
-            raise Unsupported("data dependent argmax without a choice policy")
-        return self.choice(a.size, ("argmax", a))
+            raise Unsupported(f"data dependent {name} without a choice policy")
+        return self.choice(a.size, (name, a))
+
+    def np_argmax(self, a, axis=None):
+        return self._arg_extreme("argmax", a, axis)
 
     def np_argmin(self, a, axis=None):
-        a = wrap(a)
-        if self.choice is None:
-            raise Unsupported("data dependent argmin without a choice policy")
-        return self.choice(a.size, ("argmin", a))
+        return self._arg_extreme("argmin", a, axis)
 
     def np_argsort(self, a, **k):
         kw_strict(k, "argsort", harmless=("kind",))
